@@ -151,16 +151,21 @@ def executable_lines(path):
         code = compile(src, path, 'exec')
     except Exception:
         return set()
+    # lines of function bodies only: module-level statements (imports, defs, assignments) ran at import time, before the
+    # monitor was switched on, and class bodies likewise
     lines = set()
-    stack = [code]
+    stack = [(code, 0)]
     while stack:
-        co = stack.pop()
-        for _, _, ln in co.co_lines():
-            if ln is not None and ln > 0:
-                lines.add(ln)
+        co, depth = stack.pop()
+        is_body = depth > 0 and not (co.co_flags & 0x20 == 0 and co.co_name == co.co_qualname and depth == 1 and co.co_name[:1].isupper())
+        if is_body:
+            first = True
+            for _, _, ln in co.co_lines():
+                if ln is not None and ln > 0 and ln != co.co_firstlineno:
+                    lines.add(ln)
         for c in co.co_consts:
             if hasattr(c, 'co_lines'):
-                stack.append(c)
+                stack.append((c, depth + 1))
     return lines
 
 
@@ -325,6 +330,17 @@ def jsonable(o, depth=0):
 
 # ---------------------------------------------------------------------------
 
+def _ranges(nums):
+    out, i = [], 0
+    while i < len(nums):
+        j = i
+        while j + 1 < len(nums) and nums[j + 1] - nums[j] <= 2:
+            j += 1
+        out.append(str(nums[i]) if i == j else '%d-%d' % (nums[i], nums[j]))
+        i = j + 1
+    return ' '.join(out)
+
+
 def anchors_of(prop):
     for line in open(os.path.join(VERIF, 'properties.jsonl')):
         p = json.loads(line)
@@ -416,7 +432,7 @@ def main_check(prop, tier, seed):
         if not total:
             continue
         hit = cov.get(rel, set()) & total
-        anchor_cov[f] = {'hit': len(hit), 'total': len(total)}
+        anchor_cov[f] = {'hit': len(hit), 'total': len(total), 'missed': _ranges(sorted(total - hit))}
 
     from petlmon import findings
     verdict = 'held'
